@@ -88,7 +88,7 @@ def cases(c):
                     continue
                 k = int(rng.integers(lo, hi + 1))
             out.append({'cls': cls, 'cplx': cplx, 'N': N, 'NFFT': kind, 'fs': gen.pick(rng, [1.0, 2.0, 1000.0, 0.05]),
-                        'k': k, 'params': params, 'i': i, 'directed': i < 4})
+                        'k': k, 'params': params, 'amp10': int(gen.pick(rng, [0, 0, 0, -3, -7, 4])), 'i': i, 'directed': i < 4})
     return out
 
 
@@ -102,6 +102,7 @@ def run_case(c, d):
         x = np.exp(1j * (2 * np.pi * k * n / NFFT + ph)) + 1e-3 * gen.noise(rng, N, True)
     else:
         x = np.cos(2 * np.pi * k * n / NFFT + ph) + 1e-3 * gen.noise(rng, N, False)
+    x = x * 10.0 ** d.get('amp10', 0)             # the axis clauses do not depend on the amplitude of the record
     feats = {'cls': cls, 'cplx': cplx, 'nfft_odd': bool(NFFT % 2), 'nfft_kind': 'None' if kind is None else
              ('nextpow2' if kind == 'nextpow2' else 'int')}
     try:
@@ -122,6 +123,25 @@ def run_case(c, d):
     c.compare('frequencies-are-k*fs/NFFT', fr, np.arange(len(fr)) * fs / NFFT, 1e-12, feats, scale=fs, detail=det)
     if cls == 'pma' or not ok_len or len(psd) != len(fr) or not np.all(np.isfinite(psd.real)):
         return
+    charact = None
+    if cls == 'parma' and params['P'] < params['Q']:
+        feats = dict(feats, p_lt_q=True)
+
+        def charact(which):
+            # F24d: for P < Q the AR step fits [R[Q-P+1..lag], 0, .., 0] (zero padded to `lag` samples) instead of
+            # the lag-Q+P correlation samples; absorbed only if the exposed AR part is still exactly that fit
+            if which != 'ar-equals-zero-padded-covariance-fit':
+                return False
+            P_, Q_, lag_ = params['P'], params['Q'], params['lag']
+            R = refs.corr_def(x, x, lag_, 'unbiased')
+            Y = np.zeros(lag_, dtype=complex)
+            for K in range(lag_ - Q_ + P_):
+                kk = K + Q_ - P_ + 1
+                Y[K] = R[kk] if kk >= 0 else np.conj(R[-kk])
+            D = refs.data_matrix(Y, P_, 'covariance')
+            af = np.linalg.lstsq(D[:, 1:], -D[:, 0], rcond=None)[0]
+            ar = np.asarray(p.ar)
+            return ar.shape == af.shape and float(np.max(np.abs(ar - af))) <= 1e-6 * (1 + float(np.max(np.abs(af))))
     idx = int(np.argmax(psd.real))
     bin_at = int(np.rint(fr[idx] * NFFT / fs))
     if cplx:
@@ -129,10 +149,10 @@ def run_case(c, d):
         tol = E.tol_complex_tone(cls, params, N, NFFT)
         c.err('peak-distance:%s' % cls, dist)
         c.require('complex-tone:maximum-at-the-entry-of-bin-k', dist <= tol,
-                  dict(det, peak_bin=bin_at, distance=dist, allowed=tol), feats)
+                  dict(det, peak_bin=bin_at, distance=dist, allowed=tol), feats, charact=charact)
     else:
         hw = E.halfwidth_real(cls, params, N, NFFT)
         dist = abs(bin_at - abs(k))
         c.err('peak-distance-real:%s' % cls, dist)
         c.require('real-sinusoid:maximum-within-main-lobe-half-width', dist <= hw,
-                  dict(det, peak_bin=bin_at, distance=dist, allowed=hw), feats)
+                  dict(det, peak_bin=bin_at, distance=dist, allowed=hw), feats, charact=charact)
